@@ -8,7 +8,7 @@ from hypothesis import strategies as st
 from ..runner import Shard, Violation
 from ..gen import K, Uids
 from ..core import expect_return
-from ..driver import Ctx, run, loop_mode, close_orphans
+from ..driver import Fault, Ctx, run, loop_mode, close_orphans
 from ..values import sig, mats
 from ..doubles import make_source, AClassSource, AClassNoCloseSource as SourceBaseNoClose
 from .. import env
@@ -163,10 +163,17 @@ def histories(draw, tier):
         st.tuples(st.just("close-during-fetch"), st.integers(0, 5)),
     )
     ops = [list(o) for o in draw(st.lists(op, max_size=nops))]
+    fault_at = draw(st.one_of(st.none(), st.none(), st.integers(1, 6)))
+    if fault_at and draw(st.booleans()):
+        # make sure the failure is met through a handle, which is then closed and tried again by every method
+        h = draw(st.integers(0, 2))
+        ops += [["next", h]] * fault_at + [["close", h], ["asend", h], ["next-captured", h], ["next-u"]]
     return {"items": items, "kind": draw(st.sampled_from(["agen", "agen", "aclass", "aclass_noclose", "send",
                                                              "send_only", "send_noclose"])),
             "mode": draw(st.sampled_from(["hooks", "bare"])), "ops": [["borrow", -1]] + ops,
-            "susp": draw(st.integers(0, 1))}
+            "susp": draw(st.integers(0, 1)),
+            # a class-based underlying iterator fails ONCE, at its k-th pull, and works again afterwards
+            "fault_at": fault_at}
 
 
 class Handle:
@@ -189,6 +196,8 @@ def lineage_state(h):
     # a dropped ancestor is kept alive by its child: dropping our reference closes nothing
     if "closed" in states:
         return "closed"
+    if "broken" in states:
+        return "broken"  # a failure of the underlying went through it: may or may not deliver, by either method
     if "unknown" in states:
         return "unknown"
     return "live"
@@ -199,6 +208,9 @@ def check(case):
     items = mats(case["items"])
     kind = case["kind"]
     spec = {"susp": case.get("susp", 0)}
+    fault_at = case.get("fault_at") if kind != "agen" else None  # (a generator is finished by its own failure)
+    if fault_at:
+        spec["fault"] = {"at": fault_at, "exc": "Fault", "transient": True}
     if kind == "send":
         src = SendSource(ctx, "u", items, spec)
     elif kind == "send_only":
@@ -208,7 +220,8 @@ def check(case):
     else:
         src = make_source(ctx, "u", items, dict(spec, fl=kind), "a")
     underlying = src.obj
-    model = iter(list(items))
+    model = _Model(list(items), fault_at)
+    planned = src.fault_exc
     handles = []
     problems = []
 
@@ -217,7 +230,10 @@ def check(case):
         raise _Stop()
 
     def model_next():
-        return next(model, _END)
+        try:
+            return next(model, _END)
+        except Fault:
+            return _FAULT
 
     def underlying_closed():
         if kind == "agen":
@@ -242,11 +258,29 @@ def check(case):
                 expected = model_next()
                 if expected is not _END:
                     fail("live-handle-stopped-early", f"expected {sig(expected)}")
-            h.state = "closed"
+            if state != "broken":
+                h.state = "closed"
+            return
+        except Fault as exc:
+            if exc is not planned:
+                raise
+            if state == "closed":
+                fail("closed-handle-reached-the-underlying", "its failure came through a closed handle")
+            if model_next() is not _FAULT:
+                fail("failure-of-the-underlying-at-the-wrong-pull", f"pull {src.pulls}")
+            # the failure went through the wrappers of this handle and of its ancestors: whether they still
+            # deliver is not specified; once CLOSED, however, they must be silent
+            g = h
+            while g is not None:
+                if g.state in ("live", "unknown"):
+                    g.state = "broken"
+                g = g.parent
             return
         if state == "closed":
             fail("closed-handle-yielded", f"got {sig(value)}")
         expected = model_next()
+        if expected is _FAULT:
+            fail("failure-of-the-underlying-swallowed", f"got {sig(value)} instead")
         if expected is _END or value is not expected:
             fail("item-not-next-of-underlying", f"got {sig(value)} expected "
                  f"{'<end>' if expected is _END else sig(expected)}")
@@ -279,6 +313,10 @@ def check(case):
                     if model_next() is not _END:
                         fail("underlying-stopped-early", f"step {step}")
                     continue
+                except Fault as exc:
+                    if exc is not planned or model_next() is not _FAULT:
+                        fail("failure-of-the-underlying-at-the-wrong-pull", f"step {step}")
+                    continue
                 expected = model_next()
                 if expected is _END or value is not expected:
                     fail("underlying-lost-or-duplicated-item", f"step {step}: got {sig(value)}")
@@ -294,7 +332,7 @@ def check(case):
                     await pull(h, "captured")
                 elif name == "close-during-fetch":
                     state = lineage_state(h)
-                    if state == "unknown":
+                    if state in ("unknown", "broken"):
                         continue
                     fetch = _Started(h.obj.__anext__())
                     closed_ok = None
@@ -326,6 +364,7 @@ def check(case):
                 elif name == "tool":
                     if lineage_state(h) != "live":
                         continue
+                    log_mark = len(ctx.log)
                     _, _, tname, k, j, close = op
                     mk_a, mk_s, is_agg = TOOLS7[tname]
                     if is_agg:
@@ -363,13 +402,31 @@ def check(case):
                             await it_a.aclose()
                         del it_a
                     h.state = "unknown"
+                    if src.fault_exc is not None and any(e[0] == "fault" for e in ctx.log[log_mark:]):
+                        # the underlying's failure passed through this handle AND through its ancestors
+                        g = h
+                        while g is not None:
+                            if g.state in ("live", "unknown"):
+                                g.state = "broken"
+                            g = g.parent
             if underlying_closed():
                 fail("underlying-closed", f"after step {step}: {op}")
         # teardown: the owner drains the underlying and gets exactly the rest
-        rest = []
-        async for value in underlying:
-            rest.append(value)
-        want = list(model)
+        rest, want = [], []
+        for _attempt in range(2):  # the one-off failure may still be ahead
+            try:
+                async for value in underlying:
+                    rest.append(value)
+                break
+            except Fault as exc:
+                if exc is not planned:
+                    raise
+        for _attempt in range(2):
+            try:
+                want.extend(model)
+                break
+            except Fault:
+                pass
         if len(rest) != len(want) or any(x is not y for x, y in zip(rest, want)):
             fail("owner-did-not-get-the-rest", f"got {[sig(x) for x in rest]} want {[sig(x) for x in want]}")
 
@@ -426,6 +483,31 @@ class _Started:
 
 
 _END = object()
+_FAULT = object()
+
+
+class _Model:
+    """the reference: a plain synchronous iterator over the same items that fails once at the same pull"""
+
+    def __init__(self, items, fault_at):
+        self.items, self.fault_at = items, fault_at
+        self.idx = self.pulls = 0
+        self.done = False
+
+    def __iter__(self):
+        return self
+
+    def __next__(self):
+        if self.done:
+            raise StopIteration
+        self.pulls += 1
+        if self.fault_at and self.pulls == self.fault_at:
+            raise Fault("planned:u")
+        if self.idx >= len(self.items):
+            self.done = True
+            raise StopIteration
+        self.idx += 1
+        return self.items[self.idx - 1]
 
 
 def nontrivial(case):
